@@ -345,7 +345,24 @@ pub fn judge_c11(c: &mut Collector, ep: &EnginePos, board: &Board, tf: &ThreeFol
 pub fn c11(c: &mut Collector, seed: u64, shard: u64, nshards: u64, thorough: bool, scale: f64) {
     let n_random = ((if thorough { 600.0 } else { 110.0 }) * scale).max(2.0) as u64;
     let learn_budget: u64 = if thorough { 120_000 } else { 12_000 };
-    let positions = engine_positions(seed, shard, nshards, n_random, false);
+    let mut positions = engine_positions(seed, shard, nshards, n_random, false);
+    // rare-interaction families (short k sweep each): an e.p. capture wrongly judged legal - or a
+    // legal one not generated - changes what the search may return, most visibly when it is the
+    // only move (frozen family)
+    {
+        let mut crafted = Vec::new();
+        let mut frng = Rng::new(0xF20E + shard);
+        workload::ep_frozen_family(&mut frng, shard, nshards, if thorough { 16 } else { 48 }, &mut crafted);
+        workload::ep_family(shard, nshards, if thorough { 64 } else { 512 }, &mut crafted);
+        for cr in crafted {
+            let mut p = cr.pre.clone();
+            for m in &cr.moves {
+                p = p.apply(*m);
+            }
+            let label: &'static str = if cr.family == "ep-frozen" { "ep-frozen" } else { "ep-geometry" };
+            positions.push(EnginePos { label, pos: p, history: vec![] });
+        }
+    }
     let mut rng = Rng::new(mix3(seed, shard, 0xC11));
     for (pi, ep) in positions.iter().enumerate() {
         let Ok(board) = real::parse(&ep.pos.to_fen()) else { continue };
@@ -361,6 +378,12 @@ pub fn c11(c: &mut Collector, seed: u64, shard: u64, nshards: u64, thorough: boo
             c.tag("non-empty-threefold-history");
         }
         let positional = pi % 5 == 4;
+        if ep.label.starts_with("ep-") {
+            for k in [0u64, 1, 2, 3, 5, 9, 40, 300, 2500] {
+                judge_c11(c, ep, &board, &tf, false, &legal, k, false);
+            }
+            continue;
+        }
         // learn run: where do the commits and stage boundaries fall?
         let learn = judge_c11(c, ep, &board, &tf, with_tf, &legal, learn_budget, positional);
         let lt = learn_commit_polls(&board, &tf, learn_budget, positional);
